@@ -623,14 +623,25 @@ theorem startsWith_cases {t : Ty} {den : Den} {code : Nat} (hs : t.startsWith de
     (∃ c fs, t = .struct (some c) fs ∧ c.den = den ∧ c.n = code) ∨
     (∃ n c mn mx, t = .byteArr n (some c) mn mx ∧ c.den = den ∧ c.n = code) ∨
     (∃ c fs, t = .ptr (.struct (some c) fs) ∧ c.den = den ∧ c.n = code) ∨
-    (∃ n c mn mx, t = .ptr (.byteArr n (some c) mn mx) ∧ c.den = den ∧ c.n = code) := by
+    (∃ n c mn mx, t = .ptr (.byteArr n (some c) mn mx) ∧ c.den = den ∧ c.n = code) ∨
+    (∃ c fx, t = .custom (some c) fx ∧ c.den = den ∧ c.n = code) ∨
+    (∃ c fx, t = .ptr (.custom (some c) fx) ∧ c.den = den ∧ c.n = code) := by
   unfold Ty.startsWith at hs
   split at hs <;> (try simp only [Bool.and_eq_true, beq_iff_eq] at hs)
   · exact Or.inl ⟨_, _, rfl, hs.1, hs.2⟩
   · exact Or.inr (Or.inl ⟨_, _, _, _, rfl, hs.1, hs.2⟩)
   · exact Or.inr (Or.inr (Or.inl ⟨_, _, rfl, hs.1, hs.2⟩))
-  · exact Or.inr (Or.inr (Or.inr ⟨_, _, _, _, rfl, hs.1, hs.2⟩))
+  · exact Or.inr (Or.inr (Or.inr (Or.inl ⟨_, _, _, _, rfl, hs.1, hs.2⟩)))
+  · exact Or.inr (Or.inr (Or.inr (Or.inr (Or.inl ⟨_, _, rfl, hs.1, hs.2⟩))))
+  · exact Or.inr (Or.inr (Or.inr (Or.inr (Or.inr ⟨_, _, rfl, hs.1, hs.2⟩))))
   · exact absurd hs (by simp)
+
+theorem enc_custom_prefix {c : Code} {fx : Option Nat} {pre : Bool} {v : Val} {o : Opts} {b : Bytes}
+    (h : enc (.custom (some c) fx) pre v o = .ok b) : ∃ b', b = c.bytes ++ b' := by
+  rcases v with x | x | x | x | ⟨x, y⟩ | _ | x | ⟨x, y⟩ <;> simp only [enc] at h <;> (try contradiction)
+  split at h
+  · cases h; exact ⟨x, rfl⟩
+  · contradiction
 
 theorem enc_struct_prefix {c : Code} {fs : Fields} {pre : Bool} {v : Val} {o : Opts} {b : Bytes}
     (h : enc (.struct (some c) fs) pre v o = .ok b) : ∃ b', b = c.bytes ++ b' := by
@@ -653,7 +664,7 @@ theorem startsWith_enc {t : Ty} {den : Den} {code : Nat} (hs : t.startsWith den 
     {pre : Bool} {v : Val} {o : Opts} {b : Bytes} (h : enc t pre v o = .ok b) :
     ∃ b', b = leBytes den.width code ++ b' := by
   rcases startsWith_cases hs with ⟨c, fs, rfl, rfl, rfl⟩ | ⟨n, c, mn, mx, rfl, rfl, rfl⟩ |
-    ⟨c, fs, rfl, rfl, rfl⟩ | ⟨n, c, mn, mx, rfl, rfl, rfl⟩
+    ⟨c, fs, rfl, rfl, rfl⟩ | ⟨n, c, mn, mx, rfl, rfl, rfl⟩ | ⟨c, fx, rfl, rfl, rfl⟩ | ⟨c, fx, rfl, rfl, rfl⟩
   · exact enc_struct_prefix h
   · exact enc_byteArr_prefix h
   · rcases v with x | x | x | x | ⟨x, y⟩ | _ | x | ⟨x, y⟩ <;> simp only [enc] at h <;> (try contradiction)
@@ -662,15 +673,21 @@ theorem startsWith_enc {t : Ty} {den : Den} {code : Nat} (hs : t.startsWith den 
   · rcases v with x | x | x | x | ⟨x, y⟩ | _ | x | ⟨x, y⟩ <;> simp only [enc] at h <;> (try contradiction)
     simp only [Ty.ptrTarget, if_true] at h
     exact enc_byteArr_prefix h
+  · exact enc_custom_prefix h
+  · rcases v with x | x | x | x | ⟨x, y⟩ | _ | x | ⟨x, y⟩ <;> simp only [enc] at h <;> (try contradiction)
+    simp only [Ty.ptrTarget, if_true] at h
+    exact enc_custom_prefix h
 
 theorem startsWith_code_lt {t : Ty} {den : Den} {code : Nat} (hs : t.startsWith den code = true)
     (hwf : t.wf = true) : code < 256 ^ den.width := by
   rcases startsWith_cases hs with ⟨c, fs, rfl, rfl, rfl⟩ | ⟨n, c, mn, mx, rfl, rfl, rfl⟩ |
-    ⟨c, fs, rfl, rfl, rfl⟩ | ⟨n, c, mn, mx, rfl, rfl, rfl⟩ <;>
+    ⟨c, fs, rfl, rfl, rfl⟩ | ⟨n, c, mn, mx, rfl, rfl, rfl⟩ | ⟨c, fx, rfl, rfl, rfl⟩ | ⟨c, fx, rfl, rfl, rfl⟩ <;>
   simp only [Ty.wf, Ty.ptrTarget, codeWf, Code.wf, Bool.and_eq_true, decide_eq_true_eq, Bool.true_and] at hwf
   · exact hwf.1
   · exact hwf
   · exact hwf.1
+  · exact hwf
+  · exact hwf
   · exact hwf
 
 /-! ## map keys -/
